@@ -139,6 +139,28 @@ class CFG:
             if isinstance(n, ast.Assign) and len(n.targets) == 1 and isinstance(n.targets[0], ast.Name):
                 single[n.targets[0].id] = n.value
             stack.extend(ast.iter_child_nodes(n))
+        # projection locals (`out_base = tensor_out.data.base`): an assumption about the projected expression also decides tests spelled
+        # through the local
+        def _dotted(e):
+            parts = []
+            while isinstance(e, ast.Attribute):
+                parts.append(e.attr)
+                e = e.value
+            if isinstance(e, ast.Name):
+                parts.append(e.id)
+                return ".".join(reversed(parts))
+            return None
+        import re as _re
+        for nm, val in single.items():
+            if counts.get(nm) != 1 or nm in params:
+                continue
+            d = _dotted(val)
+            if d is None or d == nm:
+                continue
+            pat = _re.compile(r"(?<![\w.])" + _re.escape(d) + r"(?![\w])")
+            for k in list(self.assume):
+                if isinstance(k, str) and pat.search(k):
+                    self.assume.setdefault(pat.sub(nm, k), self.assume[k])
         for _ in range(3):
             changed = False
             for nm, val in single.items():
